@@ -17,7 +17,7 @@ RULE = ("histograms of every class (Histogram1D incl. gapped, Histogram2D / ND, 
         "measures additive under merge_bins (every amount / axis), sums equal to total_width / total_size and to the measure of the covered "
         "region (pi R^2, 4 pi, 4/3 pi R^3, pi R^2 dz, 2 pi dz for full angular ranges), left / right edges, centres, widths and their ND per-axis and "
         "mesh forms consistent with bins, cumulative_frequencies = running sum ending at total; the same self-description re-inspected on a projection / selection (or its source) after the other one grew; non-trivial = >= 2 bins on >= 1 axis with "
-        "unequal widths and non-zero contents; distinct by hash of (class, bins, contents)")
+        "unequal widths and non-zero contents; distinct by hash of (class, bins, contents) Edges are also given as integers (python ints, int32, int16) of a magnitude whose sums / squares leave the integer type.")
 ASSUMPTIONS = ["measures compared with relative tolerance 1e-12 (1e-9 for sums of many bins)"]
 
 CLASSES = ["h1", "h1_gapped", "h2", "hnd", "polar", "radial", "azimuthal", "spherical", "spherical_surface", "cylindrical", "cylindrical_surface"]
